@@ -37,6 +37,7 @@ from ..utils import (
     suppress_body,
     UnexpectedMessageError,
     valid_server_name,
+    validate_header_part,
 )
 
 
@@ -128,7 +129,7 @@ class Handshake:
             if b"sec-websocket-protocol" == name or name.startswith(b":"):
                 raise Exception(f"Invalid additional header, {name.decode()}")
 
-            headers.append((name, value))
+            headers.append((validate_header_part(name), validate_header_part(value)))
 
         self.accepted = True
         return status_code, headers, Connection(ConnectionType.SERVER, extensions)
